@@ -13,7 +13,7 @@ import os
 import z3
 
 from .ty import (INT, BOOL, STR, TEXT, NONE, Ty, IntT, BoolT, StrT, TextT, NoneT, TupleT, ObjT, ListT, DictT, SetT,
-                 OptT, OrdDictT, MapT, str_code)
+                 OptT, OrdDictT, MapT, RealT, REAL, str_code)
 
 DROPPED = [
     "calls on logger.* / logging.* (statement level)",
@@ -290,6 +290,9 @@ class Engine:
             return z3.BoolVal(True)
         if isinstance(ty, TextT):
             return z3.Length(v.t) != 0
+        if isinstance(ty, SetT):
+            x = z3.FreshConst(ty.elt.sort(), "nonempty")
+            return z3.Exists([x], z3.Select(v.t, x))
         raise Unsupported("truthiness of %s" % ty)
 
     def coerce(self, v, ty, st, node=None, what="value"):
@@ -452,6 +455,17 @@ class Engine:
             if isinstance(op, ast.Mod):
                 self.may_raise(st, "ZeroDivisionError", b.t == 0, "mod", n)
                 return Val(a.t - b.t * self._floordiv(a.t, b.t), INT)
+        if isinstance(a.ty, (RealT, IntT)) and isinstance(b.ty, (RealT, IntT)) and (isinstance(a.ty, RealT) or isinstance(b.ty, RealT) or isinstance(n.op, ast.Div)):
+            ra = a.t if isinstance(a.ty, RealT) else z3.ToReal(a.t)
+            rb = b.t if isinstance(b.ty, RealT) else z3.ToReal(b.t)
+            if isinstance(n.op, ast.Div):
+                self.may_raise(st, "ZeroDivisionError", rb == 0, "division", n)
+                self.assumptions_used.add("float division is an uninterpreted function fdiv on reals; float comparison is the order of the reals (no NaN)")
+                return Val(self.uf("fdiv", [REAL, REAL], REAL)(ra, rb), REAL)
+            if isinstance(n.op, ast.Add):
+                return Val(ra + rb, REAL)
+            if isinstance(n.op, ast.Sub):
+                return Val(ra - rb, REAL)
         if isinstance(n.op, ast.Add) and isinstance(a.ty, ListT) and isinstance(b.ty, ListT):
             return self.list_concat(a, b, st)
         if isinstance(n.op, ast.Add) and isinstance(a.ty, TextT) and isinstance(b.ty, TextT):
@@ -497,7 +511,10 @@ class Engine:
         if isinstance(op, (ast.Eq, ast.NotEq)):
             r = self.equals(a, b, st, node)
             return r if isinstance(op, ast.Eq) else z3.Not(r)
-        if not (isinstance(a.ty, IntT) and isinstance(b.ty, IntT)):
+        if isinstance(a.ty, (RealT, IntT)) and isinstance(b.ty, (RealT, IntT)) and (isinstance(a.ty, RealT) or isinstance(b.ty, RealT)):
+            a = Val(a.t if isinstance(a.ty, RealT) else z3.ToReal(a.t), REAL)
+            b = Val(b.t if isinstance(b.ty, RealT) else z3.ToReal(b.t), REAL)
+        elif not (isinstance(a.ty, IntT) and isinstance(b.ty, IntT)):
             raise Unsupported("ordering comparison on %s, %s at line %s" % (a.ty, b.ty, node.lineno))
         if isinstance(op, ast.Lt):
             return a.t < b.t
@@ -653,6 +670,22 @@ class Engine:
         if isinstance(n.slice, ast.Slice):
             if isinstance(ty, StrT) and n.slice.step is None and n.slice.upper is None and isinstance(n.slice.lower, ast.Constant) and n.slice.lower.value == 1:
                 return Val(self.uf("str_tail", [STR], STR)(base.t), STR)
+            if isinstance(ty, StrT) and n.slice.step is None:
+                # s[:k] / s[k:] with a constant k: uninterpreted prefix / suffix functions with the law s[:k] + s[k:] == s
+                lo, hi = n.slice.lower, n.slice.upper
+                from . import lib
+                if lo is None and isinstance(hi, ast.Constant) and isinstance(hi.value, int) and hi.value >= 0:
+                    k = hi.value
+                    pre = self.uf("str_prefix", [STR, INT], STR)(base.t, k)
+                    suf = self.uf("str_suffix", [STR, INT], STR)(base.t, k)
+                    self.prefix_suffix_axiom()
+                    return Val(pre, STR)
+                if hi is None and isinstance(lo, ast.Constant) and isinstance(lo.value, int) and lo.value >= 0:
+                    k = lo.value
+                    pre = self.uf("str_prefix", [STR, INT], STR)(base.t, k)
+                    suf = self.uf("str_suffix", [STR, INT], STR)(base.t, k)
+                    self.prefix_suffix_axiom()
+                    return Val(suf, STR)
             return self.slice_list(base, n.slice, st, n)
         if isinstance(ty, OptT):
             base = self.coerce(base, ty.inner, st, n, "subscript base")
@@ -694,6 +727,15 @@ class Engine:
             return Val(z3.Select(d.ty.val(d.t), k.t), d.ty.v)
         raise Unsupported("subscript on %s at line %s" % (ty, n.lineno))
 
+    def prefix_suffix_axiom(self):
+        from . import lib
+        if "prefix-suffix" not in self.global_axioms:
+            s_, k_ = z3.FreshConst(z3.IntSort(), "ps_s"), z3.FreshConst(z3.IntSort(), "ps_k")
+            pre = self.uf("str_prefix", [STR, INT], STR)
+            suf = self.uf("str_suffix", [STR, INT], STR)
+            self.global_axioms["prefix-suffix"] = z3.ForAll([s_, k_], z3.Implies(k_ >= 0, lib.cat(self)(pre(s_, k_), suf(s_, k_)) == s_))
+            self.assumptions_used.add("assumed: s[:k] + s[k:] == s (str_prefix / str_suffix / cat on identity strings)")
+
     def slice_list(self, base, sl, st, n):
         """xs[lo:hi] as an application of a function slice_T(xs, lo, hi) (so equal arguments give equal slices), axiomatised once"""
         ty = base.ty
@@ -734,6 +776,21 @@ class Engine:
         i = z3.FreshConst(z3.IntSort(), "cc")
         st.assume(z3.ForAll([i], z3.Select(arr, i) == z3.If(i < la, z3.Select(ty.arr(a.t), i), z3.Select(ty.arr(b.t), i - la))))
         return Val(ty.mk(arr, la + ty.len(b.t)), ty)
+
+    def ev_ListComp(self, n, st):
+        src = ast.unparse(n)
+        if len(n.generators) == 1 and ast.unparse(n.elt) == "''.join(x)":
+            it = n.generators[0].iter
+            if isinstance(it, ast.Call) and ast.unparse(it.func) == "itertools.groupby" and any(ast.unparse(k.value) == "str.isdigit" for k in it.keywords):
+                x = self.ev(it.args[0], st)
+                self.assumptions_used.add("assumed: [''.join(x) for _, x in itertools.groupby(s, key=str.isdigit)] = the maximal digit / non-digit runs of s (cigar_runs)")
+                from . import lib
+                if isinstance(x.ty, ListT):
+                    return x  # the CIGAR is already modelled as its run list
+                v = Val(self.uf("cigar_runs", [STR], lib.LINE)(x.t), lib.LINE)
+                st.assume(lib.LINE.len(v.t) >= 0)
+                return v
+        raise Unsupported("list comprehension `%s` at line %s" % (src[:60], n.lineno))
 
     def ev_Lambda(self, n, st):
         raise Unsupported("lambda outside a spec quantifier at line %s" % n.lineno)
@@ -811,6 +868,10 @@ class Engine:
                     st.env[p] = v
 
     def construct(self, ty, n, st):
+        if isinstance(ty, ObjT) and hasattr(ty, "construct"):
+            args = [self.ev(a, st) for a in n.args]
+            vals = ty.construct(self, args)
+            return Val(ty.mk([self.coerce(vals[f], ty.fields[f], st, n, "field " + f).t for f in ty.order]), ty)
         if isinstance(ty, ObjT):
             ctor = getattr(ty, "ctor", ty.order)
             vals = {}
@@ -843,13 +904,13 @@ class Engine:
         if isinstance(ty, OptT) and isinstance(ty.inner, ObjT):
             recv = self.coerce(recv, ty.inner, st, n, "method receiver")
             ty = recv.ty
-        h = lib.METHODS.get((type(ty).__name__, attr))
-        if h is not None:
-            return h(self, recv, n, st)
         if isinstance(ty, ObjT):
             con = self.reg.lookup_method(ty.cname, attr)
             if con is not None:
                 return self.call_contract(con, n, st, recv)
+        h = lib.METHODS.get((type(ty).__name__, attr))
+        if h is not None:
+            return h(self, recv, n, st)
         raise Unsupported("method %s on %s at line %s" % (attr, ty, n.lineno))
 
     def bind_args(self, con, n, st, recv):
@@ -1248,11 +1309,14 @@ class Engine:
         return out
 
     def feasible(self, st):
+        """cheap pruning of dead paths: only the quantifier-free facts are used (a subset being unsat is enough, and it is fast)"""
         if not getattr(self, "prune", True):
             return True
         s = z3.Solver()
-        s.set("timeout", 300)
-        s.add(*st.pc)
+        s.set("timeout", 150)
+        for f in st.pc:
+            if not _contains_quantifier(f):
+                s.add(f)
         r = s.check()
         return r != z3.unsat
 
@@ -1445,7 +1509,11 @@ class Engine:
         st.env[idx] = IntV(0)
         if lc.seq_name:
             st.env[lc.seq_name] = src.as_list_val(self)
-        # 1. initialisation
+        # 1. initialisation (declared locals first bound inside the loop exist, unbound, so that invariants can mention them)
+        for nm in self.assigned_names(s.body) | self.assigned_names([ast.Assign(targets=[s.target], value=ast.Constant(value=0))]):
+            if nm in self.c.locals and nm not in st.env:
+                st.env[nm] = Val(self.c.locals[nm].fresh("unbound_" + nm), self.c.locals[nm])
+                st.defd[nm] = z3.BoolVal(False)
         for name, e in lc.invariant.items():
             self.oblige_spec(st, "inv-init", "loop%d:%s" % (k, name), e, s)
         # 2. arbitrary iteration
@@ -1464,7 +1532,8 @@ class Engine:
         h.assume(z3.And(h.env[idx].t >= 0, h.env[idx].t <= n))
         for name, e in lc.invariant.items():
             h.assume(self.spec_bool(e, h))
-        for e in lc.hints:
+        for hi, e in enumerate(lc.hints):
+            self.oblige_spec(h, "hint", "loop%d:hint%d" % (k, hi), e, s)  # a hint must follow from the invariant; then it may be used
             h.assume(self.spec_bool(e, h))
         out = []
         # 2a. one more iteration
@@ -1537,7 +1606,8 @@ class Engine:
         self.havoc(mod, h, lc)
         for name, e in lc.invariant.items():
             h.assume(self.spec_bool(e, h))
-        for e in lc.hints:
+        for hi, e in enumerate(lc.hints):
+            self.oblige_spec(h, "hint", "loop%d:hint%d" % (k, hi), e, s)
             h.assume(self.spec_bool(e, h))
         out = []
         c = self.truthy(self.ev(s.test, h))
@@ -1673,6 +1743,8 @@ class Engine:
         self.in_ghost = False
         st = self.initial_state()
         spec = SpecEnv(self, c, None)
+        if "str_prefix" in c.ufuns:
+            self.prefix_suffix_axiom()
         self.install_defs(st)
         for r in c.requires:
             st.assume(spec.ev_bool(r, st))
@@ -1782,6 +1854,23 @@ class Engine:
         for pc, rv in reversed(paths[:-1]):
             t = z3.If(pc, rv.t, t)
         return Val(t, c.returns), side + side_extra
+
+
+_QCACHE = {}
+
+
+def _contains_quantifier(f):
+    k = f.get_id()
+    if k in _QCACHE:
+        return _QCACHE[k]
+    if z3.is_quantifier(f):
+        r = True
+    elif z3.is_app(f):
+        r = any(_contains_quantifier(c) for c in f.children())
+    else:
+        r = False
+    _QCACHE[k] = r
+    return r
 
 
 def _old_state(st):
